@@ -244,7 +244,12 @@ class TotalWorld(OracleWorld):
             if op == "Lt" and isinstance(a, Sym) and isinstance(b, I):
                 # bounds check `idx < len` for an index produced by a binary search on a table of that length
                 tab = st.facts.get(("idx-of", a.name))
-                if tab is not None and self.table_len(tab) == b.v:
+                if tab is not None and isinstance(tab, str) and self.table_len(tab) == b.v:
+                    return ip.boolean(True)
+            if op == "Lt" and isinstance(a, Sym) and isinstance(b, Sym) and isinstance(b.name, tuple) and b.name[0] == "slice-len":
+                # `idx < slice.len()` where idx is the Ok payload of a binary search on that very slice
+                tab = st.facts.get(("idx-of", a.name))
+                if tab is not None and tab == b.name[1]:
                     return ip.boolean(True)
             return None
         if isinstance(a, I) and isinstance(b, I):
@@ -307,6 +312,13 @@ class TotalWorld(OracleWorld):
                 # comparison of compound values: std's impls are total; local impls are roots of their own
                 return self.fresh(st, self.dest_ty(st, term), "cmp")
         if callee.get("virtual") or not callee["resolved"]:
+            if p in m.models:
+                r = m.models[p](m, st, callee, args, term)
+                if r is not None:
+                    return r
+            d = m.default_method_body(callee)
+            if d is not None and m.ext_simple(d.key) and st.frames[-1].body.ext:
+                return None  # a provided std method called from std code on an abstract receiver
             # dyn / generic trait call: every implementation is analysed separately as a root
             return self.fresh(st, self.dest_ty(st, term), "unresolved:" + callee["name"])
         if self.prog.is_ws(p):
@@ -330,6 +342,9 @@ class TotalWorld(OracleWorld):
                 return r
         if p in self.prog.bodies and m.ext_simple(p):
             return None  # an exported std combinator made of plain MIR: interpret it (its closures get visited)
+        d = m.default_method_body(callee)
+        if d is not None and m.ext_simple(d.key):
+            return None
         return self.fresh(st, self.dest_ty(st, term), "ext:" + callee["name"])
 
     def indirect_call(self, m, st, fval, args, term):
@@ -515,8 +530,35 @@ class TotalWorld(OracleWorld):
     def static_value(self, st, path):
         return Opq("static", (path,))
 
+    def len_hook(self, st, a):
+        # PtrMetadata of a slice reference: its length, named after the slice it measures
+        v = a
+        if isinstance(v, Ref) and v.loc[0] == "static":
+            n = self.table_len(v.loc[1])
+            if n is not None:
+                return I(n, "usize")
+            return Sym(("slice-len", v.loc[1]), "usize")
+        if isinstance(v, Ref) and v.loc[0] in ("val",) and isinstance(v.loc[1], Opq):
+            v = v.loc[1]
+        if isinstance(v, Opq) and v.kind == "static":
+            n = self.table_len(v.data[0])
+            return I(n, "usize") if n is not None else Sym(("slice-len", v.data[0]), "usize")
+        if isinstance(v, Opq):
+            return Sym(("slice-len", ("slice", v.kind, v.data)), "usize")
+        return Top("usize")
+
     def index_hook(self, st, base, idx):
         self.visited_sites.add(self.site(st))
+        if isinstance(base, Opq) and base.kind != "static":
+            ident = ("slice", base.kind, base.data)
+            tab = st.facts.get(("idx-of", idx.name)) if isinstance(idx, Sym) else None
+            if tab != ident:
+                self.finding(st, "index", "a slice is indexed with a value that is not the Ok payload of a binary search on that slice")
+            ety = "?"
+            if base.kind == "fresh-ref" and isinstance(base.data, tuple):
+                mm = re.match(r"^\[(.*)\]$", str(base.data[0]))
+                ety = mm.group(1) if mm else "?"
+            return ty_.fresh(self.prog, ety, ("elem", self.n(st)))
         if isinstance(base, Opq) and base.kind == "static":
             path = base.data[0]
             tab = st.facts.get(("idx-of", idx.name)) if isinstance(idx, Sym) else None
@@ -556,11 +598,21 @@ def _elem_of(w, m, st, f, hint):
     return Top("?")
 
 
+def slice_ident(m, st, sl):
+    """What a slice value *is*, for matching a search with a later index: a static's path or the value."""
+    if isinstance(sl, Ref) and sl.loc[0] == "static":
+        return sl.loc[1]
+    v = deref_all(m, st, sl)
+    if isinstance(v, Opq) and v.kind == "static":
+        return v.data[0]
+    if isinstance(v, Opq):
+        return ("slice", v.kind, v.data)
+    return None
+
+
 def _bsearch(w, m, st, callee, args, term):
     sl, clo = args
-    tab = None
-    if isinstance(sl, Ref) and sl.loc[0] == "static":
-        tab = sl.loc[1]
+    tab = slice_ident(m, st, sl)
     ans = w.decide(st, "bsearch", ["Ok", "Err"])
     w.probe(m, st, clo, [_elem_of(w, m, st, clo, "elem")])
     idx = Sym(("bsidx", w.n(st)), "usize")
